@@ -356,7 +356,12 @@ type c16Run struct {
 	undecid  string // non-empty: the sampler could not decide (inconclusive)
 	leak     string // goroutines parked in channel ops after the end of the run
 	leakDet  string
-	leftover string // inconclusive: goroutines still there
+	leftover string    // inconclusive: goroutines still there
+	pre      []ank.Out // results of the calls made before the main script (stepped programs)
+	preFail  int       // index+1 of the earlier call that failed (0 = none)
+	hostStal string    // the host end of the pipeline can never finish (see c16HostPump)
+	hostDet  string
+	gaveUp   bool // a call that could not be cancelled was left behind after the verdict
 }
 
 var c16Ignore = map[string]bool{} // goroutines of earlier cases that could not be removed
@@ -364,14 +369,23 @@ var c16Ignore = map[string]bool{} // goroutines of earlier cases that could not 
 const (
 	c16PollEvery = 15 * time.Millisecond
 	c16MaxPolls  = 1200
+	// sampler periods a call gets to return after the monitor has stopped the run
+	c16GiveUpPolls = 60
 )
 
 // c16Await waits for a boundary call running on its own goroutine, sampling
 // goroutine states while it waits. The decision "deadlock" is taken on states
 // only (all interpreter goroutines parked in channel operations, twice, same
 // stacks); the timer merely paces the sampling.
+//
+// A call made with vm.Execute (stepped programs) has no context the monitor could
+// cancel. Once the verdict is in (deadlock, runaway, failed stage) and the call
+// still has not returned c16GiveUpPolls sampler periods later, it is left behind
+// (its goroutines are kept out of later samples by c16Execute); this is cleanup
+// after the decision, not a decision.
 func c16Await(done chan ank.Out, h *c16Host, cancel context.CancelFunc, r *c16Run) ank.Out {
 	var prev *c16Sample
+	after := 0
 	for polls := 0; ; polls++ {
 		select {
 		case o := <-done:
@@ -382,6 +396,10 @@ func c16Await(done chan ank.Out, h *c16Host, cancel context.CancelFunc, r *c16Ru
 		stopped := h.cancelled
 		h.mu.Unlock()
 		if stopped {
+			if after++; after > c16GiveUpPolls {
+				r.gaveUp = true
+				return ank.Out{Err: fmt.Errorf("c16: call left behind after the verdict")}
+			}
 			continue
 		}
 		s := c16TakeSample(c16Ignore)
@@ -463,23 +481,56 @@ func c16Execute(c *wk.Case, p *c16Prog, procs int, h *c16Host) *c16Run {
 	e := ank.NewCoreEnv()
 	h.define(e.Define)
 	c16DefineTypes(e)
-	c.Begin(map[string]interface{}{"src": p.src, "gomaxprocs": procs})
-	run := func(src string) ank.Out {
+	c.Begin(p.input(procs))
+	// mode "exec": vm.Execute (no context of the host's); otherwise vm.ExecuteContext
+	// under the context of this run
+	run := func(src, mode string) ank.Out {
 		done := make(chan ank.Out, 1)
-		go func() { done <- ank.ExecCtx(ctx, e, src) }()
+		if mode == "exec" {
+			go func() { done <- ank.Exec(e, src) }()
+		} else {
+			go func() { done <- ank.ExecCtx(ctx, e, src) }()
+		}
 		return c16Await(done, h, cancel, r)
 	}
-	r.out = run(p.src)
-	if r.deadlock == "" && r.undecid == "" && !r.out.Panicked && (r.out.Err == nil || p.errTail) {
+	decided := func() bool { return r.deadlock != "" || r.undecid != "" || r.hostStal != "" || r.gaveUp }
+	// stepped programs: earlier calls on the same environment (they start stages and
+	// return, or consume a part), then possibly the host at the ends of the pipeline
+	for i, st := range p.pre {
+		o := run(st.src, st.mode)
+		r.pre = append(r.pre, o)
+		if decided() {
+			break
+		}
+		if o.Panicked || o.Err != nil {
+			r.preFail = i + 1
+			break
+		}
+	}
+	if p.hostIO != nil && !decided() && r.preFail == 0 {
+		c16HostPump(e, p.hostIO, h, r)
+		if r.hostStal != "" {
+			h.mu.Lock()
+			h.stop()
+			h.mu.Unlock()
+		}
+	}
+	h.mu.Lock()
+	stoppedEarly := h.cancelled
+	h.mu.Unlock()
+	if !decided() && r.preFail == 0 && !stoppedEarly {
+		r.out = run(p.src, p.mainMode)
+	}
+	if !decided() && r.preFail == 0 && !stoppedEarly && !r.out.Panicked && (r.out.Err == nil || p.errTail) {
 		for _, f := range p.follow {
-			if r.deadlock != "" || r.undecid != "" {
+			if decided() {
 				break
 			}
-			r.follow = append(r.follow, run(f.src))
+			r.follow = append(r.follow, run(f.src, p.mainMode))
 		}
 	}
 	// all script goroutines must be gone now (without cancelling anything)
-	if r.deadlock == "" && r.undecid == "" {
+	if !decided() {
 		h.mu.Lock()
 		stopped := h.cancelled
 		h.mu.Unlock()
@@ -536,6 +587,34 @@ type c16Prog struct {
 	zipForm  string // zip programs: how the zip stage receives from its second input
 	sleepPm  int
 	yieldPm  int
+	// stepped programs (c16_r5.go): calls made on the same environment BEFORE src, each
+	// with vm.Execute ("exec") or vm.ExecuteContext; then the host feeds / drains the
+	// script-made channels named in hostIO; then src (mode mainMode) with the tail checks
+	pre      []c16Step
+	mainMode string
+	hostIO   *c16HostIO
+}
+
+type c16Step struct {
+	src  string
+	mode string // "exec" | "ctx"
+}
+
+// input is what the in-flight file, the violations and the replay show of a program
+func (p *c16Prog) input(procs int) map[string]interface{} {
+	in := map[string]interface{}{"src": p.src, "gomaxprocs": procs, "kind": p.kind}
+	if len(p.pre) > 0 || p.hostIO != nil {
+		var pre []string
+		for _, st := range p.pre {
+			pre = append(pre, st.mode+": "+st.src)
+		}
+		in["earlier_calls_on_the_same_env"] = pre
+		in["main_call"] = p.mainMode
+		if p.hostIO != nil {
+			in["host_between_calls"] = p.hostIO.describe()
+		}
+	}
+	return in
 }
 
 type c16Elem struct {
@@ -732,8 +811,24 @@ func (g *c16Gen) recvLoop(nm c16Names, form string, use func(v string) string) s
 	case "ok":
 		return fmt.Sprintf("for { %s, %s = <-%s; if !%s { break }; %s%s%s }\n", v, ok, nm.i, ok, tick, g.jit(), use(v))
 	}
+	if form == "relay" {
+		// counted, and the input channel itself is the right operand of the send:
+		// `o <- i` receives one message from i and sends it on o, like `o <- <-i`
+		// (only forwarding stages use this form: the value is used by a send)
+		return fmt.Sprintf("for %s = 0; %s < %s; %s++ { %s%s%s }\n", j, j, nm.n, j, tick, g.jit(), use(nm.i))
+	}
 	// counted: the receive expression is used in place
 	return fmt.Sprintf("for %s = 0; %s < %s; %s++ { %s%s%s }\n", j, j, nm.n, j, tick, g.jit(), use("<-"+nm.i))
+}
+
+// pickForward: receive form of a forwarding stage that sends the received value on
+// unchanged: the forms of pickRecv plus the implicit relay `o <- i`
+func (g *c16Gen) pickForward() string {
+	if g.r.Intn(6) == 0 {
+		g.tag("recv:relay")
+		return "relay"
+	}
+	return g.pickRecv(true)
 }
 
 func (g *c16Gen) pickRecv(counted bool) string {
@@ -948,32 +1043,57 @@ func (g *c16Gen) tail(ch string, el c16Elem, fam byte) {
 		g.expect("t-left3", "closed-recv-expr:not-nil", "nil")
 		g.tag("tail:buffered-leftover")
 	}
-	// failing operations: only here, on the main goroutine
+	// failing operations: only here, on the main goroutine. In half of the programs the
+	// failing statement is the body of a loop (for-in over a closed buffered channel
+	// holding two items, directly or in a function called synchronously; for-in over a
+	// list; C-style for): "is an error" holds wherever the statement stands, so the
+	// error leaves the loop and reaches the try / the host like from a plain statement.
 	mode := g.r.Intn(4)
 	sendSrc := ch + " <- " + item
 	closeSrc := "close(" + ch + ")"
+	loop := []string{"", "", "", "", "chan", "chan", "chan", "chan-func", "list", "cfor"}[g.r.Intn(10)]
+	inLoop := func(id, stmt string) string {
+		switch loop {
+		case "chan":
+			return fmt.Sprintf("tq%s = make(chan interface, 2); tq%s <- 1; tq%s <- 2; close(tq%s)\nfor tz in tq%s { tick(98); %s }", id, id, id, id, id, stmt)
+		case "chan-func":
+			return fmt.Sprintf("tq%s = make(chan interface, 2); tq%s <- 1; tq%s <- 2; close(tq%s)\nfunc tf%s(tsrc) { for tz in tsrc { tick(98); %s }; return 1 }\ntf%s(tq%s)", id, id, id, id, id, stmt, id, id)
+		case "list":
+			return fmt.Sprintf("for tz in [1, 2] { tick(98); %s }", stmt)
+		case "cfor":
+			return fmt.Sprintf("for tz = 0; tz < 2; tz++ { tick(98); %s }", stmt)
+		}
+		return stmt
+	}
+	if loop != "" {
+		g.tag("tail:errors-in-loop:" + loop)
+	}
+	sfx := ""
+	if loop != "" {
+		sfx = ":in-loop-body:" + loop
+	}
 	switch mode {
 	case 0, 1:
-		fmt.Fprintf(m, "try { %s; report(\"t-send-closed\", \"no error\") } catch te { report(\"t-send-closed\", \"caught\") }\n", sendSrc)
-		fmt.Fprintf(m, "try { %s; report(\"t-double-close\", \"no error\") } catch te { report(\"t-double-close\", \"caught\") }\n", closeSrc)
+		fmt.Fprintf(m, "try {\n%s\nreport(\"t-send-closed\", \"no error\") } catch te { report(\"t-send-closed\", \"caught\") }\n", inLoop("s", sendSrc))
+		fmt.Fprintf(m, "try {\n%s\nreport(\"t-double-close\", \"no error\") } catch te { report(\"t-double-close\", \"caught\") }\n", inLoop("c", closeSrc))
 		m.WriteString("report(\"t-alive\", 1)\n")
-		g.expect("t-send-closed", "send-closed:no-error", ank.Render("caught"))
-		g.expect("t-double-close", "double-close:no-error", ank.Render("caught"))
+		g.expect("t-send-closed", "send-closed:no-error"+sfx, ank.Render("caught"))
+		g.expect("t-double-close", "double-close:no-error"+sfx, ank.Render("caught"))
 		g.expect("t-alive", "error-op:script-not-continued", "int64(1)")
 		g.tag("tail:errors-try")
 		if mode == 1 {
 			g.p.follow = append(g.p.follow, c16Follow{closeSrc, "double-close"}, c16Follow{sendSrc, "send-closed"})
 		}
 	case 2:
-		m.WriteString("report(\"t-alive\", 1)\n" + sendSrc + "\n")
+		m.WriteString("report(\"t-alive\", 1)\n" + inLoop("s", sendSrc) + "\n")
 		g.expect("t-alive", "error-op:script-not-continued", "int64(1)")
-		g.p.errTail, g.p.errWhat = true, "send-closed"
+		g.p.errTail, g.p.errWhat = true, "send-closed"+sfx
 		g.p.follow = append(g.p.follow, c16Follow{closeSrc, "double-close"}, c16Follow{sendSrc, "send-closed"})
 		g.tag("tail:errors-toplevel")
 	default:
-		m.WriteString("report(\"t-alive\", 1)\n" + closeSrc + "\n")
+		m.WriteString("report(\"t-alive\", 1)\n" + inLoop("c", closeSrc) + "\n")
 		g.expect("t-alive", "error-op:script-not-continued", "int64(1)")
-		g.p.errTail, g.p.errWhat = true, "double-close"
+		g.p.errTail, g.p.errWhat = true, "double-close"+sfx
 		g.p.follow = append(g.p.follow, c16Follow{sendSrc, "send-closed"}, c16Follow{closeSrc, "double-close"})
 		g.tag("tail:errors-toplevel")
 	}
@@ -1085,7 +1205,7 @@ func c16Linear(r *rand.Rand, n int, tier string) *c16Prog {
 	}
 	var mids []c16Stage
 	for t := 1; t <= m; t++ {
-		form := g.pickRecv(true)
+		form := g.pickForward()
 		st := c16Stage{k: t + 1, in: chans[t-1], out: chans[t], n: n}
 		g.p.recvForm[ank.Render(int64(st.k))] = form
 		st.body = func(nm c16Names) string { return g.forwardBody(nm, form, nil, "close("+nm.o+")") }
@@ -1173,7 +1293,7 @@ func c16FanIn(r *rand.Rand, n int, tier string) *c16Prog {
 	}
 	stages = append(stages, closer)
 	for t := 1; t <= m; t++ {
-		form := g.pickRecv(true)
+		form := g.pickForward()
 		st := c16Stage{k: t + 1, in: chans[t-1], out: chans[t], n: total}
 		g.p.recvForm[ank.Render(int64(st.k))] = form
 		st.body = func(nm c16Names) string { return g.forwardBody(nm, form, nil, "close("+nm.o+")") }
@@ -1478,7 +1598,8 @@ var c16SemCaps = []int{0, 1, 3}
 
 var c16SemScen = func() []string {
 	l := []string{"assign-stmt", "recv-expr", "ok-form", "forin", "blocked-recv-woken-by-close", "errors-try", "errors-top-send", "errors-top-close", "go-snapshot", "go-shared-entry", "go-generator", "nil-messages", "go-shared-call-site",
-		"forin-body-recv", "chan-from-slot", "send-converts"}
+		"forin-body-recv", "chan-from-slot", "send-converts",
+		"relay", "forin-body-errors", "forin-body-error-top-send", "forin-body-error-top-close"}
 	if !c16PendingFix_forinSlotOperand {
 		l = append(l, "forin-slot-operand")
 	}
@@ -1569,6 +1690,78 @@ func c16Semantic(idx int) *c16Prog {
 		g.expect("n-inner", "forin-body-recv:nested-forin:inner-items", valG(8, 0), valG(8, 1))
 		g.expect("n-end", "closed-forin:no-end", "int64(1)")
 		g.p.recvForm["int64(0)"] = "forin-body-recv"
+	case "relay":
+		// the send operator with a channel as its right operand, `d <- c`, is the
+		// evaluator's implicit relay: one message is received from c and sent on d, as
+		// `d <- <-c` does. The messages taken from c arrive on d, in order, as values of
+		// d's element type (nothing else arrives there, in particular not the channel c).
+		feedCh("c", 7, 3)
+		mk("d")
+		m.WriteString("go func() { for j = 0; j < 3; j++ { d <- c }; close(d) }()\nfor x in d { tick(0); report(\"relay\", x) }\nreport(\"relay-end\", 1)\n")
+		g.expect("relay", "relay:wrong-items", valG(7, 0), valG(7, 1), valG(7, 2))
+		g.expect("relay-end", "closed-forin:no-end", "int64(1)")
+		// through a function parameter, and into a channel of interface element type
+		mk("c2")
+		feedCh("c2", 8, 2)
+		m.WriteString("e2 = make(chan interface, 2)\nfunc fwd(src, dst) { dst <- src }\nfwd(c2, e2); fwd(c2, e2)\nreport(\"relay-iface\", (<-e2)); report(\"relay-iface\", (<-e2))\n")
+		g.expect("relay-iface", "relay:wrong-items", valG(8, 0), valG(8, 1))
+		if cp > 0 {
+			// no goroutine at all: both channels buffered
+			mk("c3")
+			mk("d3")
+			fmt.Fprintf(m, "try { c3 <- %s; d3 <- c3; report(\"relay-direct\", (<-d3)) } catch e { report(\"relay-failed\", 1) }\n", it(0))
+			g.expect("relay-direct", "relay:wrong-items", val(0))
+			g.expect("relay-failed", "relay:error")
+		}
+		g.p.recvForm["int64(0)"] = "forin"
+	case "forin-body-errors":
+		// send on a closed channel / second close, issued by a statement in the BODY of a
+		// for-in over a channel (directly, in a later iteration, in a function called
+		// synchronously): an error like anywhere else, so the enclosing try sees it, the
+		// rest of the body and the statements after the loop are not executed. The loop's
+		// channel is drained afterwards (its feeder may still be sending).
+		feedCh("c", 7, 2)
+		mk("d")
+		m.WriteString("close(d)\n")
+		fmt.Fprintf(m, "try { for x in c { tick(0); report(\"s-it\", x); d <- %s; report(\"s-after\", 1) }; report(\"s-end\", \"loop ended without error\") } catch e { report(\"s-end\", \"caught\") }\nfor x in c { }\n", it(0))
+		g.expect("s-it", "forin:wrong-items", valG(7, 0))
+		g.expect("s-after", "send-closed:no-error:in-loop-body:chan")
+		g.expect("s-end", "send-closed:no-error:in-loop-body:chan", ank.Render("caught"))
+		mk("c2")
+		feedCh("c2", 7, 2)
+		mk("dn")
+		m.WriteString("try { for x in c2 { tick(1); report(\"k-it\", x); close(dn); report(\"k-after\", 1) }; report(\"k-end\", \"loop ended without error\") } catch e { report(\"k-end\", \"caught\") }\nfor x in c2 { }\n")
+		g.expect("k-it", "forin:wrong-items", valG(7, 0), valG(7, 1))
+		g.expect("k-after", "double-close:no-error:in-loop-body:chan", "int64(1)")
+		g.expect("k-end", "double-close:no-error:in-loop-body:chan", ank.Render("caught"))
+		mk("c3")
+		feedCh("c3", 7, 2)
+		m.WriteString("func relay(src, dst) { for v in src { tick(2); dst <- v }; return \"returned\" }\n" +
+			"try { report(\"f-ret\", relay(c3, d)) } catch e { report(\"f-ret\", \"caught\") }\nfor x in c3 { }\nreport(\"alive\", 1)\n")
+		g.expect("f-ret", "send-closed:no-error:in-loop-body:chan-func", ank.Render("caught"))
+		g.expect("alive", "error-op:script-not-continued", "int64(1)")
+		g.p.recvForm["int64(0)"], g.p.recvForm["int64(1)"], g.p.recvForm["int64(2)"] = "forin", "forin", "forin"
+	case "forin-body-error-top-send", "forin-body-error-top-close":
+		// the same as the last statement of the script, with no try: the run returns an
+		// error. (The loop's channel is buffered and closed: nothing is left behind.)
+		mk("d")
+		fmt.Fprintf(m, "close(d)\nq = make(chan %s, 2); q <- %s; q <- %s; close(q)\nreport(\"alive\", 1)\n", el.decl, it(0), it(1))
+		stmt, what := "d <- x", "send-closed"
+		if scen == "forin-body-error-top-close" {
+			stmt, what = "close(d)", "double-close"
+		}
+		if cp == 3 {
+			// in a function called synchronously
+			fmt.Fprintf(m, "func run(src) { for x in src { tick(0); %s }; return 1 }\nrun(q)\n", stmt)
+			what += ":in-loop-body:chan-func"
+		} else {
+			fmt.Fprintf(m, "for x in q { tick(0); %s }\n", stmt)
+			what += ":in-loop-body:chan"
+		}
+		g.expect("alive", "error-op:script-not-continued", "int64(1)")
+		g.p.errTail, g.p.errWhat = true, what
+		g.p.follow = []c16Follow{{"close(d)", "double-close"}, {"d <- " + it(1), "send-closed"}}
+		g.p.recvForm["int64(0)"] = "forin"
 	case "chan-from-slot":
 		// a channel read from a TYPED slot ([]chan T element, struct field, *p) as a go-call
 		// argument or into a binding is the channel that was in the slot at that moment;
@@ -1930,6 +2123,12 @@ func c16Judge(p *c16Prog, r *c16Run, h *c16Host) (viols []c16Verdict, inconc []c
 			return
 		}
 	}
+	for _, f := range r.pre {
+		if f.Panicked {
+			v(f.PanicSig, "Go panic reached the host: %s", f.PanicVal)
+			return
+		}
+	}
 	// a goroutine that reported arguments other than those at its go statement is
 	// the most specific diagnosis; everything else in the run is a consequence
 	if len(p.expArgs) > 0 {
@@ -1976,8 +2175,21 @@ func c16Judge(p *c16Prog, r *c16Run, h *c16Host) (viols []c16Verdict, inconc []c
 		v("deadlock:"+p.kind0(), "every script goroutine is parked in a channel operation [%s] (two identical samples): the pipeline cannot terminate (lost message / missing close / blocked go)\n%s\ncollected so far: %d of %d", r.deadlock, r.dlDetail, len(h.collected[p.consumer]), p.total)
 		return
 	}
+	if r.hostStal != "" {
+		v("host-end:"+r.hostStal, "the host, sending to / receiving from the channels the script made, can never finish: %s\n%s\ncollected so far: %d of %d", r.hostStal, r.hostDet, len(h.collected[p.consumer]), p.total)
+		return
+	}
 	if r.undecid != "" {
 		inconc = append(inconc, c16Verdict{r.undecid, r.dlDetail})
+		return
+	}
+	if r.preFail > 0 {
+		o := r.pre[r.preFail-1]
+		v("earlier-call-error:"+ank.AbstractMsg(ank.ErrText(o.Err)), "call #%d on the environment (%s) failed: %s", r.preFail, p.pre[r.preFail-1].mode, ank.ErrText(o.Err))
+		return
+	}
+	if r.gaveUp {
+		inconc = append(inconc, c16Verdict{"call-left-behind-without-verdict", r.dlDetail})
 		return
 	}
 	if p.errTail {
@@ -2136,9 +2348,20 @@ func c16Judge(p *c16Prog, r *c16Run, h *c16Host) (viols []c16Verdict, inconc []c
 	return
 }
 
+// hash identifies the program for the distinct count
+func (p *c16Prog) hash() string {
+	if len(p.pre) == 0 && p.hostIO == nil {
+		return p.src
+	}
+	return fmt.Sprint(p.input(0))
+}
+
 func (p *c16Prog) kind0() string {
 	if strings.HasPrefix(p.kind, "sem:") {
 		return "sem"
+	}
+	if strings.HasPrefix(p.kind, "stepped:") {
+		return "stepped"
 	}
 	return p.kind
 }
@@ -2182,10 +2405,10 @@ procsLoop:
 			r := c16Execute(c, p, pr, h)
 			viols, inconc, arrival := c16Judge(p, r, h)
 			runs++
-			c.Eval(p.src, p.total > 0 || len(p.expRep) > 0)
+			c.Eval(p.hash(), p.total > 0 || len(p.expRep) > 0)
 			c.Events(h.events)
 			c.Tag("procs:" + strconv.Itoa(pr))
-			input := map[string]interface{}{"src": p.src, "gomaxprocs": pr, "kind": p.kind}
+			input := p.input(pr)
 			for _, x := range viols {
 				if reported[x.sig] {
 					continue
@@ -2245,9 +2468,9 @@ func init() {
 	wk.Register(&wk.Engine{
 		ID: "C16",
 		Plan: func(tier string) fw.Plan {
-			nPlain, nRace := 320, 160
+			nPlain, nRace, nStep := 320, 160, 120
 			if tier == "thorough" {
-				nPlain, nRace = 6000, 2000
+				nPlain, nRace, nStep = 6000, 2000, 1500
 			}
 			return fw.Plan{
 				Level: "exploration",
@@ -2257,13 +2480,15 @@ func init() {
 					"phases pipelines/pipelines-race: PRNG-generated pipeline programs (linear 2-4 stages with optional prefilled buffer, fan-in with counting closer, fan-out with tagged forwarding, capacity-discipline, " +
 					"zip: two producers and a stage `for x in a { y = <-b; out <- [x, y] }` that receives from its second input inside the for-in over the first - receive expression / v,ok / nested for-in left by break - optionally with a consumer that takes an acknowledgement inside its for-in) " +
 					"over channels of element type interface/int64/float64/int32/string/[]int64 and the host-defined named types Nanos, Duration (kind int64) and Level (kind string), capacity 0/1/2/n, producers sending plain values or (one program in three) values of a named type made by a host function, " +
-					"n in {0,1,2,50,1000} uniquely identified messages, stages launched with go through named/anonymous/closure/6-parameter/variadic/spread/element-argument calls whose argument variables are reassigned right after, and through calls whose channel arguments are read from typed slots ([]chan T element, struct field; directly or via a binding) that are assigned other channels right after (the stage reports the channels it got, identified by registered name, once a gate is closed), receive forms for-in / receive expression / v,ok / counted `out <- <-in`, " +
-					"host jitter() (PRNG-chosen Gosched/sleep) at PRNG-chosen points, closed-channel and failing-operation checks on the main goroutine at the end; each program runs under GOMAXPROCS 1,2,4,16 x repetitions (race phase: -race worker, one GOMAXPROCS setting per worker process). " +
+					"n in {0,1,2,50,1000} uniquely identified messages, stages launched with go through named/anonymous/closure/6-parameter/variadic/spread/element-argument calls whose argument variables are reassigned right after, and through calls whose channel arguments are read from typed slots ([]chan T element, struct field; directly or via a binding) that are assigned other channels right after (the stage reports the channels it got, identified by registered name, once a gate is closed), receive forms for-in / receive expression / v,ok / counted `out <- <-in` / (forwarding stages) counted implicit relay `out <- in`, " +
+					"host jitter() (PRNG-chosen Gosched/sleep) at PRNG-chosen points, closed-channel and failing-operation checks on the main goroutine at the end (the failing send / close is a plain statement or, in half of the programs, the body of a loop: for-in over a channel directly or in a called function, for-in over a list, C-style for); each program runs under GOMAXPROCS 1,2,4,16 x repetitions (race phase: -race worker, one GOMAXPROCS setting per worker process). " +
 					"An evaluation = one run of one program; non-trivial when messages were delivered or closed-channel observations were made; distinct = distinct program source.",
 				Assumptions: []string{
 					"script goroutines communicate only through channels and locking host functions (no unsynchronised shared containers)",
 					"failing operations (send on closed, double close) are issued on the main script goroutine only: an error inside a `go` body has no receiver (C01 territory)",
-					"messages are never nil (a nil message is indistinguishable from the closed-channel result of a receive expression) and never channels (`out <- ch` is anko's receive-and-forward form)",
+					"messages are never nil (a nil message is indistinguishable from the closed-channel result of a receive expression) and never channels (`out <- ch` is anko's receive-and-forward form, exercised as such: it must behave as `out <- <-ch`; a relay from a closed and drained channel is not generated, the statement does not say what it sends)",
+					"a goroutine and a channel made by one call on an environment live on after that call returned, as in Go (stepped programs); the host touches script-made channels only between calls and only with non-blocking operations; its end of the pipeline is judged stuck from goroutine states only (no interpreter goroutine left, or all of them parked in channel operations in two identical samples with no host operation possible)",
+					"errors other than send-on-closed and second close (e.g. a failed conversion of the value sent) are not provoked in loop bodies: the statement names these two",
 					"conversions to the element type are exact ones only (int64 to float64/int32, integral float64 to int64, []interface{} of ints to []int64, between int64/Nanos/Duration and between string/Level)",
 					"named element types are bound by the host with DefineType and values of them are made by host functions; the channels themselves are always made by the script (channels made by the host, e.g. send-only ones, are outside the statement)",
 					"pending repairs of /repo (constants c16PendingFix_*): for-in whose operand is a typed slot that the body reassigns, and pointer messages received by for-in, are generated but kept out of the table",
@@ -2273,6 +2498,7 @@ func init() {
 					{Name: "semantics", Cases: c16SemCount(), Chunk: 24, Exhaust: true, TimeoutS: 600},
 					{Name: "pipelines", Cases: nPlain, Chunk: 10, TimeoutS: 900},
 					{Name: "pipelines-race", Race: true, Cases: nRace, Chunk: c16RaceChunk, TimeoutS: 1200},
+					{Name: "stepped", Cases: nStep, Chunk: 12, Jobs: 4, MemMB: 3072, TimeoutS: 900},
 				},
 			}
 		},
@@ -2280,6 +2506,15 @@ func init() {
 			if c.Phase == "semantics" {
 				p := c16Semantic(c.Index)
 				c16RunProgram(c, p, []int{1, 4}, 1, c.Index%61 == 0)
+				return
+			}
+			if c.Phase == "stepped" {
+				p := c16Stepped(c.Rng, c.Tier)
+				reps := 2
+				if c.Tier == "thorough" {
+					reps = 4
+				}
+				c16RunProgram(c, p, c16Procs, reps, true)
 				return
 			}
 			p := c16Generate(c.Rng, c.Tier)
